@@ -200,6 +200,8 @@ spif_regexp_compile(spif_regexp_t self)
     if (self->data != (spif_ptr_t) NULL) {
         FREE(self->data);
     }
+    /* An object without pattern text (spif_regexp_new(), or after done()) has nothing to compile. */
+    REQUIRE_RVAL(!SPIF_PTR_ISNULL(SPIF_STR_STR(SPIF_STR(self))), FALSE);
 #if LIBAST_REGEXP_SUPPORT_PCRE
     {
         const char *errptr;
